@@ -155,6 +155,19 @@ def scan_request_writers(src_root, ex: Explorer, res):
                           f'generator starts at the same value, so a live request with that ticket is silently replaced')
             ctx.prove(f'C18.requests.writers[{mname}:{qual}]', ok, detail)
             res.functions.add(f'{mname}:{qual}')
+    # ONE generator for the life of the manager: the registry outlives a login session (requests stay registered across a loss), so the
+    # generator may not be re-created: every assignment to an attribute named _ticket_generator of the search manager is in __init__
+    assigns = []
+    for mod, qual, node in src.functions():
+        for st in ast.walk(node):
+            tgts = st.targets if isinstance(st, ast.Assign) else [st.target] if isinstance(st, (ast.AnnAssign, ast.AugAssign)) else []
+            for tg in tgts:
+                if isinstance(tg, ast.Attribute) and tg.attr == '_ticket_generator' and 'ticket_generator' in ast.unparse(st):
+                    owner = qual.rsplit('.', 1)[0]
+                    if 'Search' in owner or ast.unparse(tg.value).endswith('searches'):
+                        assigns.append(f'{mod.name.split(".", 1)[-1]}:{qual}')
+    ctx.prove('C18.tickets.single-generator', assigns == ['search.manager:SearchManager.__init__'],
+              f'the search manager\'s ticket generator is (re)created in {assigns}: tickets of requests that are still registered are handed out again')
     ctx.prove('C18.requests.writers.scan-nonempty', n >= 2, f'{n} writers found')
     res.notes.append(f'ticket generators instantiated in: {gens}')
 
@@ -305,6 +318,8 @@ def prove_timeout_and_remove(src_root, ex: Explorer):
         tk = ctx.fresh_int('tk')
         req = new(it, SMODEL, 'SearchRequest', ticket=Sym(tk, 'int'), query='q', results=[], timer=None)
         reqs.entries.append([Sym(tk, 'int'), req, True])
+        at_yield = []
+        it.aio.on_yield = lambda it2, label: at_yield.append((label, reqs.entries[0][2]))
         try:
             run(it, it.getattr(mgr, '_timeout_search_request'), req)
         except PyRaise as pr:
@@ -313,7 +328,9 @@ def prove_timeout_and_remove(src_root, ex: Explorer):
         ctx.prove('C18.timeout.once', [ev_name(e) for e in emitted] == ['SearchRequestRemovedEvent'] and emitted[0].attrs.get('query') is req
                   and reqs.entries[0][2] is False and [l[0] for l in reqs.log] == ['del'],
                   'removes the request and reports the removal exactly once')
-        ctx.prove('C18.timeout.atomic-removal', it.aio.yields[:1] != ['x'] and reqs.entries[0][2] is False)
+        ctx.prove('C18.timeout.atomic-removal', reqs.entries[0][2] is False and all(present is False for _label, present in at_yield),
+                  f'the expired request is still registered while the handler is suspended ({at_yield}): a reply handled in between is '
+                  'reported after the removal was announced')
     ex.run(timeout, 'timeout')
 
     def remove(ctx: Ctx):
